@@ -1619,5 +1619,449 @@ theorem ncountmore_mono (mem : Mem) (f g : Nat) (len : Option Nat) (pos : Pos) (
     · have : f = g + 1 := by omega
       subst this; exact h
 
+
+/-! ### the runtime oracle's reference decoder agrees with the strict scan -/
+
+theorem refClassify_spec (n cp : Nat) :
+    (IsControl cp → ∃ why, refClassify Width.wcwidth n cp = .err why) ∧
+    (¬ IsControl cp → refClassify Width.wcwidth n cp = .ch ⟨n, cp, Width.wcwidth cp⟩) := by
+  unfold refClassify IsControl
+  constructor
+  · intro h
+    by_cases h1 : cp < 0x20
+    · exact ⟨"C0 control", by simp [h1]⟩
+    · by_cases h2 : cp = 0x7f
+      · exact ⟨"DEL", by simp [h2]⟩
+      · have h3 : 0x80 ≤ cp ∧ cp < 0xa0 := by omega
+        exact ⟨"C1 control", by simp only [h1, h2, if_false]; simp [h3]⟩
+  · intro h
+    have h1 : ¬ cp < 0x20 := by omega
+    have h2 : ¬ cp = 0x7f := by omega
+    have h3 : ¬ (0x80 ≤ cp ∧ cp < 0xa0) := by omega
+    have h4 : ¬ Width.wcwidth cp < 0 := by
+      rcases wcwidth_cases cp with hw | hw
+      · exact absurd ((ctl_iff cp).1 (Or.inr hw)) h
+      · omega
+    simp only [h1, h2, h3, h4, if_false]
+
+theorem badCont_iff (mem : Mem) (p : Nat) (len : Option Nat) :
+    badCont mem p len = true ↔
+      (len ≠ some 0 ∧ (mem p).toNat ≠ 0 ∧ leadLen (mem p).toNat ≠ 0 ∧ lenLt len (leadLen (mem p).toNat) = false ∧
+        ∃ i, 1 ≤ i ∧ i < leadLen (mem p).toNat ∧ (mem (p + i)).toNat ≠ 0 ∧ isContByte (mem (p + i)).toNat = false) := by
+  unfold badCont
+  simp only [Bool.and_eq_true, decide_eq_true_eq, Bool.not_eq_true', List.any_eq_true, List.mem_range]
+  constructor
+  · rintro ⟨⟨⟨⟨h1, h2⟩, h3⟩, h4⟩, i, hi, ⟨h5, h6⟩, h7⟩
+    exact ⟨h1, h2, h3, h4, i, h5, hi, h6, h7⟩
+  · rintro ⟨h1, h2, h3, h4, i, h5, hi, h6, h7⟩
+    exact ⟨⟨⟨⟨h1, h2⟩, h3⟩, h4⟩, i, hi, ⟨h5, h6⟩, h7⟩
+
+/-- `stepStrict` on a lead byte: the four situations. -/
+theorem stepStrict_short (mem : Mem) (p : Nat) (len : Option Nat) (hl : len ≠ some 0) (h0 : (mem p).toNat ≠ 0)
+    (hn : leadLen (mem p).toNat ≠ 0) (hlt : lenLt len (leadLen (mem p).toNat) = true) :
+    ∃ hi, stepStrict mem p len = .err hi := by
+  unfold stepStrict
+  have hb : badCont mem p len = false := by
+    cases hbc : badCont mem p len with
+    | false => rfl
+    | true => have := (badCont_iff mem p len).1 hbc; rw [hlt] at this; exact absurd this.2.2.2.1 (by simp)
+  simp only [hb, Bool.false_eq_true, if_false]
+  exact (stepAt_err_iff mem p len).2 ⟨hl, h0, Or.inr (Or.inr (Or.inl ⟨hn, Or.inl hlt⟩))⟩
+
+theorem stepStrict_nul (mem : Mem) (p : Nat) (len : Option Nat) (hl : len ≠ some 0) (h0 : (mem p).toNat ≠ 0)
+    (hn : leadLen (mem p).toNat ≠ 0)
+    (hz : ∃ i, 1 ≤ i ∧ i < leadLen (mem p).toNat ∧ (mem (p + i)).toNat = 0) :
+    ∃ hi, stepStrict mem p len = .err hi := by
+  unfold stepStrict
+  cases hbc : badCont mem p len with
+  | true => exact ⟨p + 1, by simp⟩
+  | false =>
+    simp only [Bool.false_eq_true, if_false]
+    exact (stepAt_err_iff mem p len).2 ⟨hl, h0, Or.inr (Or.inr (Or.inl ⟨hn, Or.inr hz⟩))⟩
+
+theorem stepStrict_bad (mem : Mem) (p : Nat) (len : Option Nat) (hl : len ≠ some 0) (h0 : (mem p).toNat ≠ 0)
+    (hn : leadLen (mem p).toNat ≠ 0) (hlt : lenLt len (leadLen (mem p).toNat) = false)
+    (hb : ∃ i, 1 ≤ i ∧ i < leadLen (mem p).toNat ∧ (mem (p + i)).toNat ≠ 0 ∧ isContByte (mem (p + i)).toNat = false) :
+    ∃ hi, stepStrict mem p len = .err hi := by
+  unfold stepStrict
+  have : badCont mem p len = true := (badCont_iff mem p len).2 ⟨hl, h0, hn, hlt, hb⟩
+  exact ⟨p + 1, by simp [this]⟩
+
+theorem stepStrict_good (mem : Mem) (p : Nat) (len : Option Nat) (hl : len ≠ some 0) (h0 : (mem p).toNat ≠ 0)
+    (hn : leadLen (mem p).toNat ≠ 0) (hlt : lenLt len (leadLen (mem p).toNat) = false)
+    (hc : ∀ i, 1 ≤ i → i < leadLen (mem p).toNat → isContByte (mem (p + i)).toNat = true) :
+    (IsControl (seqValue mem p (leadLen (mem p).toNat)) → ∃ hi, stepStrict mem p len = .err hi) ∧
+    (¬ IsControl (seqValue mem p (leadLen (mem p).toNat)) →
+      stepStrict mem p len = .ch (leadLen (mem p).toNat) (seqValue mem p (leadLen (mem p).toNat))
+        (Width.wcwidth (seqValue mem p (leadLen (mem p).toNat))) (p + leadLen (mem p).toNat)) := by
+  have hnz : ∀ i, 1 ≤ i → i < leadLen (mem p).toNat → (mem (p + i)).toNat ≠ 0 := by
+    intro i h1 h2 h3
+    have := hc i h1 h2
+    rw [h3] at this
+    simp [isContByte] at this
+  have hb : badCont mem p len = false := by
+    cases hbc : badCont mem p len with
+    | false => rfl
+    | true =>
+      obtain ⟨_, _, _, _, i, h1, h2, _, h4⟩ := (badCont_iff mem p len).1 hbc
+      rw [hc i h1 h2] at h4; cases h4
+  have hd := nextUtf8_complete mem p len hn hlt hnz
+  obtain ⟨s1, s2⟩ := stepAt_of_ok mem p len hl h0 _ _ _ hd
+  unfold stepStrict
+  simp only [hb, Bool.false_eq_true, if_false]
+  exact ⟨fun h => s1.2 h, s2⟩
+
+theorem stepStrict_single (mem : Mem) (p : Nat) (len : Option Nat)
+    (hn : leadLen (mem p).toNat = 0) : stepStrict mem p len = stepAt mem p len := by
+  unfold stepStrict
+  have hb : badCont mem p len = false := by
+    cases hbc : badCont mem p len with
+    | false => rfl
+    | true => exact absurd hn ((badCont_iff mem p len).1 hbc).2.2.1
+  simp [hb]
+
+
+/-- When do a step of the model and a step of the reference decoder say the same. -/
+def StepRel : Step → RefStep → Prop
+  | .stop _, .eof => True
+  | .err _, .err _ => True
+  | .ch n cp w _, .ch c => c = ⟨n, cp, w⟩
+  | _, _ => False
+
+theorem stepRel_err {s : Step} {r : RefStep} (hs : ∃ hi, s = .err hi) (hr : ∃ why, r = .err why) : StepRel s r := by
+  obtain ⟨hi, rfl⟩ := hs; obtain ⟨why, rfl⟩ := hr; trivial
+
+theorem leadLen_range (b : Nat) :
+    (leadLen b = 0 ↔ (b < 0xc0 ∨ 0xf8 ≤ b)) ∧ (leadLen b = 2 ↔ (0xc0 ≤ b ∧ b < 0xe0)) ∧
+    (leadLen b = 3 ↔ (0xe0 ≤ b ∧ b < 0xf0)) ∧ (leadLen b = 4 ↔ (0xf0 ≤ b ∧ b < 0xf8)) := by
+  unfold leadLen
+  (repeat' split) <;> omega
+
+theorem effective_drop (mem : Mem) (str : Nat) (len : Option Nat) (bs : List Nat) (n : Nat)
+    (hE : Effective mem str len bs) (hn : n ≤ bs.length) (hl : ∀ l, len = some l → n ≤ l) :
+    Effective mem (str + n) (lenDec len n) (bs.drop n) := by
+  obtain ⟨h1, h2⟩ := hE
+  refine ⟨?_, ?_⟩
+  · intro i hi
+    simp only [List.length_drop] at hi
+    have := h1 (n + i) (by omega)
+    rw [List.getD_eq_getElem?_getD, List.getElem?_drop, ← List.getD_eq_getElem?_getD, Nat.add_assoc]
+    exact this
+  · simp only [List.length_drop]
+    rcases h2 with h | ⟨hz, hlt⟩
+    · left; subst h; simp only [lenDec, Option.map]
+    · right
+      refine ⟨by rw [Nat.add_assoc, show n + (bs.length - n) = bs.length by omega]; exact hz, ?_⟩
+      intro l hl'
+      cases len with
+      | none => simp [lenDec] at hl'
+      | some l0 =>
+        simp only [lenDec, Option.map, Option.some.injEq] at hl'
+        have := hlt l0 rfl
+        have := hl l0 rfl
+        omega
+
+/-- Too few bytes after a lead byte: the reference decoder reports a truncated sequence. -/
+theorem refStep_short (w : Nat → Int) (b0 : Nat) (rest : List Nat) (hn : leadLen b0 ≠ 0)
+    (hlen : rest.length + 1 < leadLen b0) : ∃ why, refStep w (b0 :: rest) = .err why := by
+  obtain ⟨r0, r2, r3, r4⟩ := leadLen_range b0
+  rcases leadLen_cases b0 with h | h | h | h
+  · exact absurd h hn
+  · have hb := r2.1 h
+    rw [h] at hlen
+    have : rest = [] := by cases rest with | nil => rfl | cons _ _ => simp at hlen; omega
+    subst this
+    refine ⟨"truncated sequence", ?_⟩
+    unfold refStep
+    simp only [show ¬ b0 < 0x80 by omega, show ¬ b0 < 0xc0 by omega, show b0 < 0xe0 by omega, if_true, if_false]
+  · have hb := r3.1 h
+    rw [h] at hlen
+    refine ⟨"truncated sequence", ?_⟩
+    unfold refStep
+    simp only [show ¬ b0 < 0x80 by omega, show ¬ b0 < 0xc0 by omega, show ¬ b0 < 0xe0 by omega,
+      show b0 < 0xf0 by omega, if_true, if_false]
+    match rest, hlen with
+    | [], _ => rfl
+    | [_], _ => rfl
+    | _ :: _ :: _, hlen => simp at hlen; omega
+  · have hb := r4.1 h
+    rw [h] at hlen
+    refine ⟨"truncated sequence", ?_⟩
+    unfold refStep
+    simp only [show ¬ b0 < 0x80 by omega, show ¬ b0 < 0xc0 by omega, show ¬ b0 < 0xe0 by omega,
+      show ¬ b0 < 0xf0 by omega, show b0 < 0xf8 by omega, if_true, if_false]
+    match rest, hlen with
+    | [], _ => rfl
+    | [_], _ => rfl
+    | [_, _], _ => rfl
+    | _ :: _ :: _ :: _, hlen => simp at hlen; omega
+
+
+/-- Enough bytes after a lead byte: the reference decoder checks the continuation bytes and classifies
+    the same value the model decodes. -/
+theorem refStep_long (w : Nat → Int) (mem : Mem) (str : Nat) (b0 : Nat) (rest : List Nat)
+    (hn : leadLen b0 ≠ 0) (hlen : leadLen b0 ≤ rest.length + 1) (hb0 : b0 = (mem str).toNat)
+    (hbi : ∀ i, 1 ≤ i → i < leadLen b0 → (b0 :: rest).getD i 0 = (mem (str + i)).toNat) :
+    ((∀ i, 1 ≤ i → i < leadLen b0 → isContByte (mem (str + i)).toNat = true) →
+      refStep w (b0 :: rest) = refClassify w (leadLen b0) (seqValue mem str (leadLen b0))) ∧
+    ((∃ i, 1 ≤ i ∧ i < leadLen b0 ∧ isContByte (mem (str + i)).toNat = false) →
+      ∃ why, refStep w (b0 :: rest) = .err why) := by
+  obtain ⟨r0, r2, r3, r4⟩ := leadLen_range b0
+  rcases leadLen_cases b0 with h | h | h | h
+  · exact absurd h hn
+  · have hb := r2.1 h
+    rw [h] at hlen hbi ⊢
+    match rest, hlen, hbi with
+    | b1 :: r1, _, hbi =>
+      have e1 : b1 = (mem (str + 1)).toNat := by simpa using hbi 1 (by omega) (by omega)
+      have hrs : refStep w (b0 :: b1 :: r1) =
+          if isCont b1 then refClassify w 2 (b0 % 32 * 64 + b1 % 64) else .err "truncated sequence (bad continuation)" := by
+        unfold refStep
+        simp only [show ¬ b0 < 0x80 by omega, show ¬ b0 < 0xc0 by omega, show b0 < 0xe0 by omega, if_true, if_false]
+      rw [hrs]
+      constructor
+      · intro hc
+        have := hc 1 (by omega) (by omega)
+        rw [← e1] at this
+        simp only [isCont, this, if_true, seqValue, ← hb0, ← e1]
+      · rintro ⟨i, h1, h2, h3⟩
+        have : i = 1 := by omega
+        subst this
+        rw [← e1] at h3
+        exact ⟨_, by simp only [isCont, h3]; rfl⟩
+  · have hb := r3.1 h
+    rw [h] at hlen hbi ⊢
+    match rest, hlen, hbi with
+    | b1 :: b2 :: r2', _, hbi =>
+      have e1 : b1 = (mem (str + 1)).toNat := by simpa using hbi 1 (by omega) (by omega)
+      have e2 : b2 = (mem (str + 2)).toNat := by simpa using hbi 2 (by omega) (by omega)
+      have hrs : refStep w (b0 :: b1 :: b2 :: r2') =
+          if isCont b1 && isCont b2 then refClassify w 3 ((b0 % 16 * 64 + b1 % 64) * 64 + b2 % 64)
+          else .err "truncated sequence (bad continuation)" := by
+        unfold refStep
+        simp only [show ¬ b0 < 0x80 by omega, show ¬ b0 < 0xc0 by omega, show ¬ b0 < 0xe0 by omega,
+          show b0 < 0xf0 by omega, if_true, if_false]
+      rw [hrs]
+      constructor
+      · intro hc
+        have c1 := hc 1 (by omega) (by omega)
+        have c2 := hc 2 (by omega) (by omega)
+        rw [← e1] at c1; rw [← e2] at c2
+        simp only [isCont, c1, c2, Bool.and_self, if_true, seqValue, ← hb0, ← e1, ← e2]
+      · rintro ⟨i, h1, h2, h3⟩
+        have : i = 1 ∨ i = 2 := by omega
+        rcases this with rfl | rfl
+        · rw [← e1] at h3; exact ⟨_, by simp only [isCont, h3, Bool.false_and]; rfl⟩
+        · rw [← e2] at h3; exact ⟨_, by simp only [isCont, h3, Bool.and_false]; rfl⟩
+  · have hb := r4.1 h
+    rw [h] at hlen hbi ⊢
+    match rest, hlen, hbi with
+    | b1 :: b2 :: b3 :: r3', _, hbi =>
+      have e1 : b1 = (mem (str + 1)).toNat := by simpa using hbi 1 (by omega) (by omega)
+      have e2 : b2 = (mem (str + 2)).toNat := by simpa using hbi 2 (by omega) (by omega)
+      have e3 : b3 = (mem (str + 3)).toNat := by simpa using hbi 3 (by omega) (by omega)
+      have hrs : refStep w (b0 :: b1 :: b2 :: b3 :: r3') =
+          if isCont b1 && isCont b2 && isCont b3 then
+            refClassify w 4 (((b0 % 8 * 64 + b1 % 64) * 64 + b2 % 64) * 64 + b3 % 64)
+          else .err "truncated sequence (bad continuation)" := by
+        unfold refStep
+        simp only [show ¬ b0 < 0x80 by omega, show ¬ b0 < 0xc0 by omega, show ¬ b0 < 0xe0 by omega,
+          show ¬ b0 < 0xf0 by omega, show b0 < 0xf8 by omega, if_true, if_false]
+      rw [hrs]
+      constructor
+      · intro hc
+        have c1 := hc 1 (by omega) (by omega)
+        have c2 := hc 2 (by omega) (by omega)
+        have c3 := hc 3 (by omega) (by omega)
+        rw [← e1] at c1; rw [← e2] at c2; rw [← e3] at c3
+        simp only [isCont, c1, c2, c3, Bool.and_self, if_true, seqValue, ← hb0, ← e1, ← e2, ← e3]
+      · rintro ⟨i, h1, h2, h3⟩
+        have : i = 1 ∨ i = 2 ∨ i = 3 := by omega
+        rcases this with rfl | rfl | rfl
+        · rw [← e1] at h3; exact ⟨_, by simp only [isCont, h3, Bool.false_and]; rfl⟩
+        · rw [← e2] at h3; exact ⟨_, by simp only [isCont, h3, Bool.and_false, Bool.false_and]; rfl⟩
+        · rw [← e3] at h3; exact ⟨_, by simp only [isCont, h3, Bool.and_false]; rfl⟩
+
+
+/-- One step of the strict scan over memory and one step of the reference decoder over the effective
+    bytes agree, and the effective bytes of the rest are the rest of the effective bytes. -/
+theorem refStep_stepStrict (mem : Mem) (str : Nat) (len : Option Nat) (bs : List Nat)
+    (hE : Effective mem str len bs) :
+    StepRel (stepStrict mem str len) (refStep Width.wcwidth bs) ∧
+    ∀ n cp w hi, stepStrict mem str len = .ch n cp w hi →
+      0 < n ∧ n ≤ bs.length ∧ Effective mem (str + n) (lenDec len n) (bs.drop n) := by
+  cases bs with
+  | nil =>
+    obtain ⟨_, h2⟩ := hE
+    have hstop : ∃ hi, stepStrict mem str len = .stop hi := by
+      rcases h2 with h | ⟨hz, _⟩
+      · simp only [List.length_nil] at h
+        exact ⟨0, by unfold stepStrict badCont stepAt; simp [h]⟩
+      · simp only [List.length_nil, Nat.add_zero] at hz
+        by_cases hl : len = some 0
+        · exact ⟨0, by unfold stepStrict badCont stepAt; simp [hl]⟩
+        · exact ⟨str + 1, by unfold stepStrict badCont stepAt; simp [hl, hz]⟩
+    obtain ⟨hi, hs⟩ := hstop
+    rw [hs]
+    exact ⟨trivial, fun _ _ _ _ h => nomatch h⟩
+  | cons b0 rest =>
+    have hb0' := hE.1 0 (by simp)
+    simp only [List.getD_cons_zero, Nat.add_zero] at hb0'
+    obtain ⟨hb0, h0⟩ := hb0'
+    have hbound : ∀ l, len = some l → rest.length + 1 ≤ l := by
+      intro l hl
+      rcases hE.2 with h | ⟨_, h⟩
+      · rw [hl] at h; simp only [List.length_cons, Option.some.injEq] at h; omega
+      · have := h l hl; simp only [List.length_cons] at this; omega
+    have hl : len ≠ some 0 := by intro h; have := hbound 0 h; omega
+    by_cases hN : leadLen b0 = 0
+    · -- one byte, or an invalid lead byte
+      have hN' : leadLen (mem str).toNat = 0 := by rw [← hb0]; exact hN
+      rw [stepStrict_single mem str len hN']
+      by_cases ha : b0 < 0x80
+      · have hd := nextUtf8_ascii mem str len hl h0 (by rw [← hb0]; exact ha)
+        obtain ⟨s1, s2⟩ := stepAt_of_ok mem str len hl h0 _ _ _ hd
+        rw [← hb0] at s1 s2
+        have hrs : refStep Width.wcwidth (b0 :: rest) = refClassify Width.wcwidth 1 b0 := by
+          unfold refStep; simp only [ha, if_true]
+        rw [hrs]
+        by_cases hc : IsControl b0
+        · obtain ⟨hi, he⟩ := s1.2 hc
+          rw [he]
+          exact ⟨stepRel_err ⟨hi, rfl⟩ ((refClassify_spec 1 b0).1 hc), fun _ _ _ _ h => nomatch h⟩
+        · rw [s2 hc, (refClassify_spec 1 b0).2 hc]
+          refine ⟨rfl, ?_⟩
+          intro n cp w hi h
+          injection h with h1 _ _ _
+          subst h1
+          exact ⟨by omega, by simp, effective_drop mem str len _ 1 hE (by simp) (fun l hl' => by have := hbound l hl'; omega)⟩
+      · have herr : ∃ hi, stepAt mem str len = .err hi :=
+          (stepAt_err_iff mem str len).2 ⟨hl, h0, Or.inr (Or.inl ⟨by rw [← hb0]; omega, hN'⟩)⟩
+        obtain ⟨hi, he⟩ := herr
+        rw [he]
+        refine ⟨stepRel_err ⟨hi, rfl⟩ ?_, fun _ _ _ _ h => nomatch h⟩
+        have hr := (leadLen_range b0).1.1 hN
+        unfold refStep
+        rcases hr with hr | hr
+        · exact ⟨"invalid lead byte (continuation or C1 byte)", by simp only [ha, show b0 < 0xc0 from hr, if_true, if_false]⟩
+        · exact ⟨"invalid lead byte (>= 0xf8)", by simp only [ha, show ¬ b0 < 0xc0 by omega, show ¬ b0 < 0xe0 by omega,
+            show ¬ b0 < 0xf0 by omega, show ¬ b0 < 0xf8 by omega, if_false]⟩
+    · -- a lead byte announcing `leadLen b0` bytes
+      have hN' : leadLen (mem str).toNat ≠ 0 := by rw [← hb0]; exact hN
+      by_cases hshort : rest.length + 1 < leadLen b0
+      · have hserr : ∃ hi, stepStrict mem str len = .err hi := by
+          by_cases hlt : lenLt len (leadLen (mem str).toNat) = true
+          · exact stepStrict_short mem str len hl h0 hN' hlt
+          · have hlt' : lenLt len (leadLen (mem str).toNat) = false := by simpa using hlt
+            apply stepStrict_nul mem str len hl h0 hN'
+            refine ⟨rest.length + 1, by omega, by rw [← hb0]; exact hshort, ?_⟩
+            rcases hE.2 with h | ⟨hz, _⟩
+            · exfalso
+              rw [h, ← hb0] at hlt'
+              simp only [lenLt, List.length_cons, decide_eq_false_iff_not] at hlt'
+              omega
+            · simpa using hz
+        obtain ⟨hi, he⟩ := hserr
+        rw [he]
+        exact ⟨stepRel_err ⟨hi, rfl⟩ (refStep_short _ b0 rest hN hshort), fun _ _ _ _ h => nomatch h⟩
+      · have hlong : leadLen b0 ≤ rest.length + 1 := by omega
+        have hlt : lenLt len (leadLen (mem str).toNat) = false := by
+          rw [← hb0]
+          cases hlen : len with
+          | none => rfl
+          | some l => have := hbound l hlen; simp only [lenLt, decide_eq_false_iff_not]; omega
+        have hbi : ∀ i, 1 ≤ i → i < leadLen b0 → (b0 :: rest).getD i 0 = (mem (str + i)).toNat :=
+          fun i _ h2 => (hE.1 i (by simp only [List.length_cons]; omega)).1
+        obtain ⟨l1, l2⟩ := refStep_long Width.wcwidth mem str b0 rest hN hlong hb0 hbi
+        by_cases hc : ∀ i, 1 ≤ i → i < leadLen b0 → isContByte (mem (str + i)).toNat = true
+        · obtain ⟨g1, g2⟩ := stepStrict_good mem str len hl h0 hN' hlt (by rw [← hb0]; exact hc)
+          rw [← hb0] at g1 g2
+          rw [l1 hc]
+          by_cases hctl : IsControl (seqValue mem str (leadLen b0))
+          · obtain ⟨hi, he⟩ := g1 hctl
+            rw [he]
+            exact ⟨stepRel_err ⟨hi, rfl⟩ ((refClassify_spec _ _).1 hctl), fun _ _ _ _ h => nomatch h⟩
+          · rw [g2 hctl, (refClassify_spec _ _).2 hctl]
+            refine ⟨rfl, ?_⟩
+            intro n cp w hi h
+            injection h with h1 _ _ _
+            subst h1
+            have hpos : 0 < leadLen b0 := Nat.pos_of_ne_zero hN
+            refine ⟨hpos, by simp only [List.length_cons]; omega, ?_⟩
+            apply effective_drop mem str len _ _ hE (by simp only [List.length_cons]; omega)
+            intro l hl'
+            have := hbound l hl'; omega
+        · have hbad : ∃ i, 1 ≤ i ∧ i < leadLen b0 ∧ isContByte (mem (str + i)).toNat = false := by
+            apply Classical.byContradiction
+            intro hne
+            apply hc
+            intro i h1 h2
+            cases hcb : isContByte (mem (str + i)).toNat with
+            | true => rfl
+            | false => exact absurd ⟨i, h1, h2, hcb⟩ hne
+          have hserr : ∃ hi, stepStrict mem str len = .err hi := by
+            apply stepStrict_bad mem str len hl h0 hN' hlt
+            obtain ⟨i, h1, h2, h3⟩ := hbad
+            exact ⟨i, h1, by rw [← hb0]; exact h2, (hE.1 i (by simp only [List.length_cons]; omega)).2, h3⟩
+          obtain ⟨hi, he⟩ := hserr
+          rw [he]
+          exact ⟨stepRel_err ⟨hi, rfl⟩ (l2 hbad), fun _ _ _ _ h => nomatch h⟩
+
+/-- **The runtime oracle's decoder is the strict scan**: on the effective bytes of the input, `refScan`
+    finds the characters and the ending that `scanStrict` finds over memory. -/
+theorem refScan_eq_scanStrict (mem : Mem) : ∀ (fuel str : Nat) (len : Option Nat) (bs : List Nat)
+    (cs : List Ch) (t : Tail), Effective mem str len bs →
+    scanStrict mem fuel str len = some (cs, t) →
+    ∀ rfuel, bs.length < rfuel →
+      (refScan Width.wcwidth rfuel bs).1 = cs ∧ (refScan Width.wcwidth rfuel bs).2.1 = t := by
+  intro fuel
+  induction fuel with
+  | zero => intro str len bs cs t _ h; simp [scanStrict] at h
+  | succ f ih =>
+    intro str len bs cs t hE h rfuel hrf
+    obtain ⟨hrel, hch⟩ := refStep_stepStrict mem str len bs hE
+    cases rfuel with
+    | zero => omega
+    | succ rf =>
+      rw [scanStrict] at h
+      rw [refScan]
+      cases hst : stepStrict mem str len with
+      | stop hi =>
+        rw [hst] at h hrel
+        injection h with h; injection h with h1 h2; subst h1; subst h2
+        cases hr : refStep Width.wcwidth bs with
+        | eof => simp
+        | err why => rw [hr] at hrel; exact absurd hrel (by simp [StepRel])
+        | ch c => rw [hr] at hrel; exact absurd hrel (by simp [StepRel])
+      | err hi =>
+        rw [hst] at h hrel
+        injection h with h; injection h with h1 h2; subst h1; subst h2
+        cases hr : refStep Width.wcwidth bs with
+        | eof => rw [hr] at hrel; exact absurd hrel (by simp [StepRel])
+        | err why => simp
+        | ch c => rw [hr] at hrel; exact absurd hrel (by simp [StepRel])
+      | ch n cp w hi =>
+        rw [hst] at h hrel
+        obtain ⟨hpos, hnl, hE'⟩ := hch n cp w hi hst
+        simp only at h
+        cases hsc : scanStrict mem f (str + n) (lenDec len n) with
+        | none => rw [hsc] at h; cases h
+        | some x =>
+          obtain ⟨cs', t'⟩ := x
+          rw [hsc] at h
+          injection h with h; injection h with h1 h2; subst h1; subst h2
+          cases hr : refStep Width.wcwidth bs with
+          | eof => rw [hr] at hrel; exact absurd hrel (by simp [StepRel])
+          | err why => rw [hr] at hrel; exact absurd hrel (by simp [StepRel])
+          | ch c =>
+            rw [hr] at hrel
+            simp only [StepRel] at hrel
+            subst hrel
+            simp only
+            obtain ⟨i1, i2⟩ := ih (str + n) (lenDec len n) (bs.drop n) cs' t' hE' hsc rf
+              (by simp only [List.length_drop]; omega)
+            rw [← i1, ← i2]
+            simp
+
 end Utf8
 end Tickit
